@@ -548,7 +548,11 @@ class ExprMixin(object):
         if b.ty == NONE:
             if isinstance(a.ty, TOpt):
                 return opt_is_none(a)
+            if a.ty == TERM:
+                return self.term_identical_none(a)
             return z3.BoolVal(False)
+        if isinstance(a.ty, (TType, TFun)) and isinstance(b.ty, (TType, TFun)):
+            return z3.BoolVal(self.pytype_name(a) is not None and self.pytype_name(a) == self.pytype_name(b))
         if isinstance(a.ty, TRef) and isinstance(b.ty, TRef):
             return a.t == b.t
         if isinstance(a.ty, TOpt) and isinstance(a.ty.t, TRef) and isinstance(b.ty, TRef):
@@ -563,8 +567,20 @@ class ExprMixin(object):
             return z3.BoolVal(a.py == b.py)
         raise Unsupported("`is` on %s, %s" % (a.ty, b.ty))
 
+    def pytype_name(self, v):
+        p = v.py
+        if isinstance(v.ty, TType) and p and p[0] == "pytype":
+            return p[1]
+        if isinstance(v.ty, TFun) and p and p[0] == "builtin" and p[1] in ("int", "float", "str", "bool", "list", "tuple"):
+            return p[1]
+        if isinstance(v.ty, TType) and p and p[0] == "class":
+            return p[2]
+        return None
+
     def equal(self, a, b, node=None):
         ta, tb = a.ty, b.ty
+        if self.pytype_name(a) is not None and self.pytype_name(b) is not None:
+            return z3.BoolVal(self.pytype_name(a) == self.pytype_name(b))
         if isinstance(ta, (TFun, TMethodRef)) or isinstance(tb, (TFun, TMethodRef)):
             if isinstance(ta, TFun) and isinstance(tb, TFun):
                 return z3.BoolVal(a.py[:1] + a.py[2:] == b.py[:1] + b.py[2:]) if a.py[0] == "bound" \
@@ -646,9 +662,6 @@ class ExprMixin(object):
             return {"<": z3.And(le(a.t, b.t), a.t != b.t), "<=": le(a.t, b.t),
                     ">": z3.And(le(b.t, a.t), a.t != b.t), ">=": le(b.t, a.t)}[sym]
         return self.order_other(sym, a, b, node)
-
-    def order_other(self, sym, a, b, node):
-        raise Unsupported("ordering on %s, %s" % (a.ty, b.ty))
 
     def abs_le(self, ty):
         s = sort(ty)
@@ -762,9 +775,6 @@ class ExprMixin(object):
             if m is not None:
                 return Val(TFun(), None, ("unbound", p[1], p[2], attr))
         raise Unsupported("attribute %s of %s" % (attr, p))
-
-    def term_attr(self, obj, attr, node):
-        raise Unsupported("Term attribute %s" % attr)
 
     def ev_Subscript(self, node):
         base = self.ev(node.value)
